@@ -66,3 +66,50 @@ Proof. vm_compute. split; reflexivity. Qed.
 
 Example c13_hypothesis_satisfiable : inj (fun n i => N.of_nat (n * 3 + i)) 3.
 Proof. unfold inj. intros n i n' i' Hi Hi' H. lia. Qed.
+
+(* ---- keys and nodes as Go VALUES (every key type): Get on a value k is get_key, which evaluates
+   lang.Repr (Model.repr); text_of is the Spec's notion of which values are the same key ---- *)
+
+(* lang.Repr as transcribed never panics and yields the value's text *)
+Theorem c13_repr_total : forall k, repr k = Ok (text_of k).
+Proof. exact repr_text. Qed.
+Print Assumptions c13_repr_total.
+
+(* totality for every key VALUE: Get never panics, answers a member of positive weight, absent iff there is
+   none. Covers the nil interface, typed nil pointers, pointers to values, struct values, Stringers incl.
+   nil receivers (values whose own String method panics are caller faults, outside gval). *)
+Theorem c13_lookup_total_keys : forall vh cap, inj vh cap -> forall hf ops k inner,
+  get_key hf (run vh cap ops) k inner <> Panic /\
+  (forall n, get_key hf (run vh cap ops) k inner = Ok (Some n) ->
+             exists r, In (n, r) (members_of cap ops) /\ (0 < r)%nat) /\
+  (get_key hf (run vh cap ops) k inner = Ok None <-> forall n r, In (n, r) (members_of cap ops) -> r = 0%nat).
+Proof. exact key_total. Qed.
+Print Assumptions c13_lookup_total_keys.
+
+(* values with the same text are the same key: same answer (pointer vs value, Stringer vs its string, ...) *)
+Theorem c13_lookup_same_text : forall vh cap, inj vh cap -> forall hf ops k1 k2 i1 i2,
+  text_of k1 = text_of k2 ->
+  get_key hf (run vh cap ops) k1 i1 = get_key hf (run vh cap ops) k2 i2.
+Proof. exact key_same_text. Qed.
+Print Assumptions c13_lookup_same_text.
+
+(* the empty ring answers not-found for EVERY value (Repr is not even evaluated) *)
+Theorem c13_empty_ring_absent : forall vh cap hf k inner, get_key hf (run vh cap []) k inner = Ok None.
+Proof. exact key_empty_ring. Qed.
+Print Assumptions c13_empty_ring_absent.
+
+(* removing every node (or keeping only weight-0 nodes) leaves no virtual node behind *)
+Theorem c13_remove_all_empties : forall vh cap, inj vh cap -> forall ops,
+  (forall n r, In (n, r) (members_of cap ops) -> r = 0%nat) ->
+  keys (run vh cap ops) = [] /\ ring (run vh cap ops) = [].
+Proof. exact remove_all_empties. Qed.
+Print Assumptions c13_remove_all_empties.
+
+Require Coq.Strings.String.
+Import Coq.Strings.String.StringSyntax.
+Local Open Scope string_scope.
+Example c13_text_examples :
+  text_of (GPtr None) = "<nil>" /\ text_of GNil = "" /\
+  text_of (GPtr (Some "abc")) = text_of (GVal "abc") /\
+  repr (GPtr None) = Ok "<nil>" /\ repr (GStringer "nil-safe") = Ok "nil-safe".
+Proof. repeat split. Qed.
